@@ -264,16 +264,31 @@ static void dense_qderiv(const mjModel* m, const mjData* d, double* out) {
 
 static void op_qderiv(char** tok, int n) {
   const mjModel* m = M; mjData* d = D;
-  if (!m || !d || n != 1) { printf("error usage\ndone\n"); return; }
+  if (!m || !d || n < 1 || n > 2) { printf("error usage\ndone\n"); return; }
   double eps = strtod(tok[0], NULL);
+  double velscale = n > 1 ? strtod(tok[1], NULL) : 1.0;
   int nv = m->nv;
   armed = 1;
   static int saved_integ = -1;
-  if (setjmp(jb)) { armed = 0; if (saved_integ >= 0) ((mjModel*)M)->opt.integrator = saved_integ; saved_integ = -1; printf("error %s\ndone\n", lasterr); return; }
+  static double* saved_qvel = NULL;
+  static double saved_wind[3];
+  if (setjmp(jb)) {
+    armed = 0;
+    if (saved_integ >= 0) ((mjModel*)M)->opt.integrator = saved_integ;
+    saved_integ = -1;
+    if (saved_qvel) { memcpy(D->qvel, saved_qvel, sizeof(double) * M->nv); memcpy(((mjModel*)M)->opt.wind, saved_wind, sizeof saved_wind); free(saved_qvel); saved_qvel = NULL; }
+    printf("error %s\ndone\n", lasterr); return;
+  }
   saved_integ = m->opt.integrator;
+  // probe mode: the same state with every velocity (and the wind) scaled
+  saved_qvel = (double*)malloc(sizeof(double) * (nv + 1));
+  memcpy(saved_qvel, d->qvel, sizeof(double) * nv); memcpy(saved_wind, m->opt.wind, sizeof saved_wind);
+  for (int i = 0; i < nv; i++) d->qvel[i] *= velscale;
+  for (int i = 0; i < 3; i++) ((mjModel*)m)->opt.wind[i] *= velscale;
   mj_forward(m, d);
   printf("sizes %d %d %d %d\n", nv, (int)m->nu, (int)m->na, (int)m->nD);
-  double* buf = (double*)malloc(sizeof(double) * (8 * nv * nv + 8 * nv + 8));
+  double* buf = (double*)malloc(sizeof(double) * (9 * nv * nv + 8 * nv + 8));
+  double* Aclamp = buf + 8 * nv * nv + 8 * nv;
   double *Aact = buf, *Apas = Aact + nv * nv, *A0 = Apas + nv * nv, *A1 = A0 + nv * nv;
   double *Fact = A1 + nv * nv, *Fpas = Fact + nv * nv, *Fbias = Fpas + nv * nv, *mask = Fbias + nv * nv;
   double* fp = mask + nv * nv; double* fm = fp + 3 * nv;
@@ -282,6 +297,15 @@ static void op_qderiv(char** tok, int n) {
   int save_integrator = m->opt.integrator;
   ((mjModel*)m)->opt.integrator = mjINT_IMPLICIT;
   mju_zero(d->qDeriv, m->nD); mjd_actuator_vel(m, d); dense_qderiv(m, d, Aact);
+  // classification aid: the same analytic term with d->ctrl clamped to ctrlrange the way mj_fwdActuation clamps it
+  { double* cs = (double*)malloc(sizeof(double) * (m->nu + 1));
+    memcpy(cs, d->ctrl, sizeof(double) * m->nu);
+    for (int i = 0; i < m->nu; i++) if (m->actuator_ctrllimited[i]) {
+      if (d->ctrl[i] < m->actuator_ctrlrange[2 * i]) d->ctrl[i] = m->actuator_ctrlrange[2 * i];
+      if (d->ctrl[i] > m->actuator_ctrlrange[2 * i + 1]) d->ctrl[i] = m->actuator_ctrlrange[2 * i + 1];
+    }
+    mju_zero(d->qDeriv, m->nD); mjd_actuator_vel(m, d); dense_qderiv(m, d, Aclamp);
+    memcpy(d->ctrl, cs, sizeof(double) * m->nu); free(cs); }
   mju_zero(d->qDeriv, m->nD); mjd_passive_vel(m, d); dense_qderiv(m, d, Apas);
   mjd_smooth_vel(m, d, 0); dense_qderiv(m, d, A0);
   mjd_smooth_vel(m, d, 1); dense_qderiv(m, d, A1);
@@ -303,18 +327,7 @@ static void op_qderiv(char** tok, int n) {
     }
   }
   mj_forward(m, d);
-  pmat("A_act", Aact, nv * nv); pmat("A_pas", Apas, nv * nv); pmat("A_smooth0", A0, nv * nv); pmat("A_smooth1", A1, nv * nv);
-  pmat("F_act", Fact, nv * nv); pmat("F_pas", Fpas, nv * nv); pmat("F_bias", Fbias, nv * nv); pmat("mask", mask, nv * nv);
-  pmat("qfrc_actuator", d->qfrc_actuator, nv); pmat("qfrc_passive", d->qfrc_passive, nv); pmat("qfrc_bias", d->qfrc_bias, nv);
-  pmat("qvel", d->qvel, nv);
-  pmat("actuator_force", d->actuator_force, m->nu);
-  { double* fr = (double*)malloc(sizeof(double) * (3 * m->nu + 1));
-    for (int i = 0; i < m->nu; i++) { fr[3 * i] = m->actuator_forcelimited[i]; fr[3 * i + 1] = m->actuator_forcerange[2 * i]; fr[3 * i + 2] = m->actuator_forcerange[2 * i + 1]; }
-    pmat("forcerange", fr, 3L * m->nu); free(fr); }
-  { double* ci = (double*)malloc(sizeof(double) * (4 * m->nu + 1));
-    for (int i = 0; i < m->nu; i++) { ci[4 * i] = m->actuator_ctrllimited[i]; ci[4 * i + 1] = m->actuator_ctrlrange[2 * i];
-                                      ci[4 * i + 2] = m->actuator_ctrlrange[2 * i + 1]; ci[4 * i + 3] = d->ctrl[i]; }
-    pmat("ctrlinfo", ci, 4L * m->nu); free(ci); }
+  double fluidguard = 0;
   // classification aid: for how many ellipsoid-fluid geoms is the mjMINVAL guard of mjd_viscous_drag
   // (dA_coef = pi / max(mjMINVAL, sqrt(proj_num^3 proj_denom))) active at this state?  (quantities as documented there)
   { double cnt = 0;
@@ -332,7 +345,24 @@ static void op_qderiv(char** tok, int n) {
       int degenerate = sa[0] == sa[1] && sa[1] == sa[2];
       if (!degenerate && (x || y || z) && sqrt(num * num * num * den) < mjMINVAL) cnt += 1;
     }
-    pmat("fluidguard", &cnt, 1); }
+    fluidguard = cnt; }
+  pmat("fluidguard", &fluidguard, 1);
+  pmat("qvel", d->qvel, nv);
+  pmat("qfrc_actuator", d->qfrc_actuator, nv); pmat("qfrc_passive", d->qfrc_passive, nv); pmat("qfrc_bias", d->qfrc_bias, nv);
+  pmat("actuator_force", d->actuator_force, m->nu);
+  memcpy(d->qvel, saved_qvel, sizeof(double) * nv); memcpy(((mjModel*)m)->opt.wind, saved_wind, sizeof saved_wind);
+  free(saved_qvel); saved_qvel = NULL;
+  mj_forward(m, d);
+  pmat("A_act_clampedctrl", Aclamp, nv * nv);
+  pmat("A_act", Aact, nv * nv); pmat("A_pas", Apas, nv * nv); pmat("A_smooth0", A0, nv * nv); pmat("A_smooth1", A1, nv * nv);
+  pmat("F_act", Fact, nv * nv); pmat("F_pas", Fpas, nv * nv); pmat("F_bias", Fbias, nv * nv); pmat("mask", mask, nv * nv);
+  { double* fr = (double*)malloc(sizeof(double) * (3 * m->nu + 1));
+    for (int i = 0; i < m->nu; i++) { fr[3 * i] = m->actuator_forcelimited[i]; fr[3 * i + 1] = m->actuator_forcerange[2 * i]; fr[3 * i + 2] = m->actuator_forcerange[2 * i + 1]; }
+    pmat("forcerange", fr, 3L * m->nu); free(fr); }
+  { double* ci = (double*)malloc(sizeof(double) * (4 * m->nu + 1));
+    for (int i = 0; i < m->nu; i++) { ci[4 * i] = m->actuator_ctrllimited[i]; ci[4 * i + 1] = m->actuator_ctrlrange[2 * i];
+                                      ci[4 * i + 2] = m->actuator_ctrlrange[2 * i + 1]; ci[4 * i + 3] = d->ctrl[i]; }
+    pmat("ctrlinfo", ci, 4L * m->nu); free(ci); }
   free(buf);
   saved_integ = -1;
   armed = 0;
@@ -380,11 +410,19 @@ static void sdiff(const mjModel* m, double* ds, const double* s1, const double* 
 
 static void op_transfd(char** tok, int n) {
   const mjModel* m = M; mjData* d = D;
-  if (!m || !d || n != 2) { printf("error usage\ndone\n"); return; }
+  if (!m || !d || n < 2 || n > 3) { printf("error usage\ndone\n"); return; }
   int cen = atoi(tok[0]); double eps = strtod(tok[1], NULL);
   int nv = m->nv, na = m->na, nu = m->nu, nq = m->nq, ns = m->nsensordata, ndx = 2 * nv + na;
+  // probe mode: the same computation with the integrator option overridden
+  static int tf_saved = -1;
   armed = 1;
-  if (setjmp(jb)) { armed = 0; printf("error %s\ndone\n", lasterr); return; }
+  if (setjmp(jb)) { armed = 0; if (tf_saved >= 0) ((mjModel*)M)->opt.integrator = tf_saved; tf_saved = -1; printf("error %s\ndone\n", lasterr); return; }
+  tf_saved = m->opt.integrator;
+  if (n == 3) {
+    if (!strcmp(tok[2], "euler")) ((mjModel*)m)->opt.integrator = mjINT_EULER;
+    else if (!strcmp(tok[2], "implicit")) ((mjModel*)m)->opt.integrator = mjINT_IMPLICIT;
+    else { armed = 0; tf_saved = -1; printf("error usage\ndone\n"); return; }
+  }
   mj_forward(m, d);
   unsigned int user = mjSTATE_FULLPHYSICS | mjSTATE_USER;
   uint64_t h0 = state_hash(m, d, user), w0 = state_hash(m, d, mjSTATE_WARMSTART);
@@ -424,6 +462,7 @@ static void op_transfd(char** tok, int n) {
   }
   pmat("A_direct", A2, (long)ndx * ndx); pmat("B_direct", B2, (long)ndx * nu); pmat("C_direct", C2, (long)ns * ndx); pmat("D_direct", D2, (long)ns * nu);
   free(A); free(A2); free(nx); mj_deleteData(tmp);
+  ((mjModel*)m)->opt.integrator = tf_saved; tf_saved = -1;
   armed = 0;
   printf("done\n");
 }
